@@ -292,7 +292,7 @@ theorem boxVals_tellMany {s : State α} (h : BoxVals s) {pts : List (α × List 
       | true => exact Or.inl rfl
       | false => right; simpa using hc
     exact sviewProp_boxVals _ _ (sview_of_core (core_tellManyBatch lossFn r12 s pts))
-      (boxVals_batchBase s pts (foldl_dataSet_ne_nil_oi pts s.data (Or.inl (hbatch hcond).2)))
+      (boxVals_batchBase s pts (foldl_dataSet_ne_nil_oi pts s.data (Or.inl (hbatch hcond))))
 
 theorem boxVals_step {s : State α} (h : BoxVals s) {op : Op α} (hv : ValidOp s op) :
     BoxVals (step lossFn r12 s op) := by
